@@ -281,6 +281,11 @@ func (pool *BlockPool) removePeer(peerID string) {
 			go requester.redo() // pick another peer and ...
 		}
 	}
+	// its timeout must not fire once it is gone from the pool: the reactor would disconnect the
+	// peer, which by then may be back in the pool and answering
+	if peer := pool.peers[peerID]; peer != nil && peer.timeout != nil {
+		peer.timeout.Stop()
+	}
 	delete(pool.peers, peerID)
 }
 
